@@ -21,7 +21,7 @@ THEOREMS = ["C17_arcless", "C17_regular", "C17_le_four", "C17_upper_certificate"
 CONE = ["Proofs/CapacityProofs.v", "Proofs/CapacityFloatProofs.v", "Proofs/CapacityTermProofs.v", "Capacity.v", "CapacitySpec.v", "Graph.v", "GraphSpec.v", "Py.v"]
 MODEL_FUNCTIONS = ["approximate_capacity"]
 from axioms import FLOAT_ALLOWED as ALLOWED_AXIOMS, FLOAT_PATTERNS as ALLOWED_AXIOM_PATTERNS  # noqa
-RULE = ("arc subsets, generated coding graphs, d-regular graphs (d = 1..4) and arc-less graphs of order 1..3 (thorough 4); "
+RULE = ("arc subsets, generated coding graphs, d-regular graphs (d = 1..4), graphs whose live vertices have exactly d live successors plus arcs into one to three dead vertices (often exactly the first or last vertex) and arc-less graphs of order 1..3 (thorough 4); "
         "repeats 1 (deterministic start) and 2..6 (NumPy RNG seeded, the same initial vectors are handed to the model); "
         "tolerance levels -10 / -6 / -3; maximum_iteration 500 or small (2, 5, 20: median fallback); process=True so that "
         "every per-iteration value is compared bit-for-bit with the model (Coq primitive floats, log2 applied by NumPy on "
@@ -55,6 +55,28 @@ def regular_graph(rng, k, d):
     return [[w if (ok(v) and ok(w)) else -1 for w in gen.latters(v, k)] if ok(v) else [-1] * 4 for v in range(n)]
 
 
+def regular_with_dead(rng, k, d):
+    """every live vertex keeps exactly d arcs to live vertices plus some arcs into a SMALL set of dead vertices (often exactly one:
+    the first or the last vertex), which have no arcs themselves"""
+    n = 4 ** k
+    size = rng.choice([1, 1, 1, 2, 3])
+    dead = set(rng.choice([0, 0, n - 1, rng.randrange(n)]) for _ in range(size))
+    while True:
+        more = {v for v in range(n) if v not in dead and sum(1 for w in gen.latters(v, k) if w not in dead) < d}
+        if not more:
+            break
+        dead |= more
+    rows = []
+    for v in range(n):
+        if v in dead:
+            rows.append([-1] * 4)
+            continue
+        succ = gen.latters(v, k)
+        keep = set(rng.sample([j for j in range(4) if succ[j] not in dead], d))
+        rows.append([succ[j] if (j in keep or (succ[j] in dead and rng.random() < 0.6)) else -1 for j in range(4)])
+    return rows
+
+
 def payloads(rng, tier):
     n = {"quick": 140, "thorough": 2500, "search": 80}[tier]
     kmax = {"quick": 3, "thorough": 4, "search": 2}[tier]
@@ -65,7 +87,7 @@ def payloads(rng, tier):
     yield "capacity", {"rows": [[-1] * 4] * 16, "repeats": 3, "seed": 1, "tol": -10, "maxit": 500, "kind": "arcless"}
     for _ in range(n):
         k = rng.randint(1, kmax)
-        kind = rng.choice(["subset", "subset", "coding", "coding", "regular", "complete", "fullrows", "induced"])
+        kind = rng.choice(["subset", "subset", "coding", "coding", "regular", "complete", "fullrows", "induced", "regdead", "regdead"])
         if kind == "subset":
             rows = gen.arc_subset(rng, k, keep=rng.choice([0.3, 0.5, 0.7, 0.9]))
         elif kind == "coding":
@@ -79,9 +101,12 @@ def payloads(rng, tier):
             rows = gen.induced(k, gen.random_mask(rng, k, rng.choice([0.3, 0.5, 0.7])))
         elif kind == "regular":
             rows = regular_graph(rng, k, rng.randint(1, 4))
+        elif kind == "regdead":
+            rows = regular_with_dead(rng, k, rng.randint(1, 3))
         else:
             rows = gen.complete(k)
-        yield "capacity", {"rows": rows, "repeats": rng.choice([1, 1, 2, 2, 3, 6]), "seed": rng.randrange(1 << 30),
+        yield "capacity", {"rows": rows, "repeats": 1 if kind == "regdead" and rng.random() < 0.8 else rng.choice([1, 1, 2, 2, 3, 6]),
+                           "seed": rng.randrange(1 << 30),
                            "tol": rng.choice([-10, -10, -10, -6, -3]), "maxit": rng.choice([500, 500, 500, 2, 5, 20]),
                            "kind": kind}
 
